@@ -2,7 +2,7 @@
 From Coq Require Import List NArith ZArith Bool Arith String.
 Import ListNotations.
 Require Import Scan Pos DQ SQ.
-Require Emit EmitGrows EmitLemmas EmitPrefix EmitSafe EmitSQ Plain EmitPlain AnalysisPlain.
+Require Emit EmitGrows EmitLemmas EmitPrefix EmitSafe EmitSQ Plain EmitPlain AnalysisPlain PlainDispatch.
 Require ParseL ParserGrammar EmitGrammar.
 
 (* KIND C05_double_quoted_scalar_roundtrip : U *)
@@ -90,6 +90,31 @@ Theorem C05_analysed_plain_emit_then_scan : forall au text x r s, text <> [] -> 
       exists tok sc', scan_plain sc = Ok (tok, sc') /\ t_kind tok = TScalar text true SPlain /\ rest sc' = Plain.after x r.
 Proof. exact AnalysisPlain.analysed_plain_emit_then_scan. Qed.
 Eval vm_compute in "ASSUME:C05_analysed_plain_emit_then_scan"%string. Print Assumptions C05_analysed_plain_emit_then_scan.
+(* KIND C05_dispatch_is_the_tail_of_fetch_more_tokens : U *)
+(* PlainDispatch.dispatch is, literally, the part of fetch_more_tokens (scanner.py:156-260) that looks at the next character and selects the fetcher *)
+Theorem C05_dispatch_is_the_tail_of_fetch_more_tokens :
+  fetch_more_tokens = (scan_to_next_token ;;; stale_possible_simple_keys ;;; (s <- get ;; unwind_indent (Z.of_nat (col s)) ;;; PlainDispatch.dispatch)).
+Proof. exact PlainDispatch.fetch_more_tokens_eq. Qed.
+Eval vm_compute in "ASSUME:C05_dispatch_is_the_tail_of_fetch_more_tokens"%string. Print Assumptions C05_dispatch_is_the_tail_of_fetch_more_tokens.
+(* KIND C05_analysed_plain_is_dispatched_to_plain : U *)
+(* a fourth cooperating site: the scanner DECIDES to read a plain scalar exactly where the emitter wrote one.  For EVERY non-empty text for which
+   analyze_scalar allows the plain style in block context, standing in the input followed by a blank, the dispatch of fetch_more_tokens selects
+   fetch_plain - the text is not taken for a document marker (--- / ...), a block entry, a key or value indicator, a flow indicator, an anchor, alias,
+   tag, directive, block or quoted scalar, and not rejected with "found character that cannot start any token" (Proofs/PlainDispatch.v: what the
+   analysis establishes about the first character, and the absence of the two markers, carried through the twenty tests of the dispatch) *)
+Theorem C05_analysed_plain_is_dispatched_to_plain : forall au text x r sc,
+  text <> [] -> Emit.a_block_plain (Emit.analyze_scalar au text) = true -> mem x blankz = true ->
+  rest sc = (text ++ x :: r)%list -> flow_level sc = 0%Z -> PlainDispatch.dispatch sc = fetch_plain sc.
+Proof. exact PlainDispatch.analysed_plain_is_dispatched_to_plain. Qed.
+Eval vm_compute in "ASSUME:C05_analysed_plain_is_dispatched_to_plain"%string. Print Assumptions C05_analysed_plain_is_dispatched_to_plain.
+(* KIND C05_plain_dispatch_nonvacuous : F *)
+(* "-x y" may be written plain and the whole scanner reads "-x y\n" as that plain scalar; "---x", "-" and "..." may not be written plain *)
+Example C05_plain_dispatch_nonvacuous :
+  Emit.a_block_plain (Emit.analyze_scalar false [45; 120; 32; 121]%N) = true /\
+  map t_kind (fst (scan_all [45; 120; 32; 121; 10]%N)) = [TStreamStart; TScalar [45; 120; 32; 121]%N true SPlain; TStreamEnd] /\
+  Emit.a_block_plain (Emit.analyze_scalar false [45; 45; 45; 120]%N) = false /\ Emit.a_block_plain (Emit.analyze_scalar false [45]%N) = false /\
+  Emit.a_block_plain (Emit.analyze_scalar false [46; 46; 46]%N) = false.
+Proof. exact PlainDispatch.dispatch_example. Qed.
 
 (* KIND C05_emitter_accepts_the_event_grammar : U *)
 (* EVERY list of events that the event grammar allows (a viable prefix of STREAM-START document* STREAM-END, the pushdown recogniser of
@@ -120,6 +145,7 @@ Example C05_structure_and_content :
   (match snd (Emit.emit_all [Emit.EStreamStart; Emit.EDocStart false None []; Emit.EAlias None; Emit.EDocEnd false] s0) with Emit.EmitErr c _ => EmitGrammar.content c = true | _ => False end).
 Proof. exact EmitGrammar.structure_and_content. Qed.
 
-(* PARTIAL (FULL: forall v opts, load (dump v opts) ~ v): only the double-quoted scalar layer (the universal fallback style)
-   without folding is a theorem.  Value<->node, node<->event and the other four scalar styles are decided by the
+(* PARTIAL (FULL: forall v opts, load (dump v opts) ~ v): the double-quoted, single-quoted and (block-context) plain scalar layers without
+   folding, the event grammar on both sides and the structure of dumped documents are theorems.  Folding, flow-context plain scalars, the literal and
+   folded block styles, tags/anchors as text and the value<->node layer beyond integers are decided by the
    represent/serialize/emit/scan/parse/compose/construct correspondence and the direct round-trip run. *)
